@@ -43,6 +43,8 @@ type Env struct {
 	NoRetain   bool
 	Recoveries int
 	lastOpenRecovered bool
+	// OnAPI, when set, is called right before every API call with its index (1-based).
+	OnAPI func(idx int, op Op)
 }
 
 type retained struct {
@@ -188,6 +190,9 @@ func eqNil(a, b []byte) bool {
 func (e *Env) Do(op Op) *Violation {
 	e.nAPI++
 	e.FS.SetAPI(0, e.nAPI)
+	if e.OnAPI != nil {
+		e.OnAPI(e.nAPI, op)
+	}
 	switch op.K {
 	case "open":
 		if err := e.Open(); err != nil {
